@@ -138,7 +138,7 @@ func main() {
 
 	// 6. instrumentation (engine S)
 	if len(conf.Instrument) > 0 || len(conf.ConstOverride) > 0 {
-		files := expandInstrument(*repo, conf.Instrument, conf.InstrumentSkip)
+		files := expandInstrument(*repo, conf.Instrument, conf.InstrumentSkip, overlay)
 		seen := map[string]bool{}
 		for _, f := range files {
 			seen[f] = true
@@ -228,10 +228,14 @@ func addDir(overlay map[string]string, src, dst, prefix string) {
 	}
 }
 
-func expandInstrument(repo string, items, skip []string) []string {
+func expandInstrument(repo string, items, skip []string, overlay map[string]string) []string {
 	var out []string
 	for _, it := range items {
 		p := filepath.Join(repo, it)
+		if _, virt := overlay[p]; virt {
+			out = append(out, it)
+			continue
+		}
 		st, err := os.Stat(p)
 		if err != nil {
 			die("instrument: %s: %v", it, err)
